@@ -91,6 +91,16 @@ func cmdPlan(byID map[string]Engine, args []string) int {
 
 // ---------- worker ----------
 
+// runLimit is the wall-clock cap of one run (AGESIM_RUN_LIMIT_S, default 240 s).
+func runLimit() time.Duration {
+	if s := os.Getenv("AGESIM_RUN_LIMIT_S"); s != "" {
+		if v, err := strconv.Atoi(s); err == nil && v > 0 {
+			return time.Duration(v) * time.Second
+		}
+	}
+	return 240 * time.Second
+}
+
 func cmdWorker(byID map[string]Engine, args []string) int {
 	fs := flag.NewFlagSet("worker", flag.ExitOnError)
 	prop := fs.String("prop", "", "")
@@ -109,6 +119,7 @@ func cmdWorker(byID map[string]Engine, args []string) int {
 	}
 	out := bufio.NewWriter(os.Stdout)
 	enc := json.NewEncoder(out)
+	var wmu sync.Mutex
 	st := NewStats()
 	var samples []json.RawMessage
 	var done uint64
@@ -121,15 +132,33 @@ func cmdWorker(byID map[string]Engine, args []string) int {
 		}
 		plan := e.Generate(NewRNG(RunSeed(*seed, e.ID(), i)), *tier, i)
 		ctx := &Ctx{Stats: st, Log: NewLog(false), Tier: *tier}
+		// watchdog: a run that does not come back is reported (exit 2 upstream), never silently waited for
+		runIdx, planJSON := i, PlanJSON(plan)
+		wd := time.AfterFunc(runLimit(), func() {
+			wmu.Lock()
+			enc.Encode(workerMsg{Type: "hang", Runs: runIdx, Samples: []json.RawMessage{planJSON}})
+			out.Flush()
+			os.Exit(3)
+		})
 		v := SafeExecute(e, Clone(e, plan), ctx)
+		wd.Stop()
 		done++
 		if len(samples) < 2 && (i/(*W))%97 == 0 {
 			samples = append(samples, PlanJSON(plan))
 		}
 		if v != nil {
+			wd2 := time.AfterFunc(4*runLimit(), func() {
+				wmu.Lock()
+				enc.Encode(workerMsg{Type: "hang", Runs: runIdx, Samples: []json.RawMessage{planJSON}})
+				out.Flush()
+				os.Exit(3)
+			})
 			rp := BuildReplay(e, plan, v, *seed, i)
+			wd2.Stop()
+			wmu.Lock()
 			enc.Encode(workerMsg{Type: "violation", Replay: rp})
 			out.Flush()
+			wmu.Unlock()
 			nviol++
 			if nviol >= 3 {
 				break
@@ -335,6 +364,7 @@ func cmdRun(byID map[string]Engine, args []string) int {
 	sigs := map[uint64]struct{}{}
 	var samples []json.RawMessage
 	var viols []*Replay
+	var hangs []string
 	var runsDone uint64
 	harness := false
 	timedOut := false
@@ -371,6 +401,8 @@ func cmdRun(byID map[string]Engine, args []string) int {
 				}
 				mu.Lock()
 				switch m.Type {
+				case "hang":
+					hangs = append(hangs, fmt.Sprintf("run %d plan %s", m.Runs, string(m.Samples[0])))
 				case "violation":
 					viols = append(viols, m.Replay)
 				case "done":
@@ -514,6 +546,12 @@ func cmdRun(byID map[string]Engine, args []string) int {
 	}
 	fmt.Printf("agesim: property=%s runs=%d evaluations=%d distinct=%d wall=%.1fs violations=%d known=%d\n",
 		e.ID(), runsDone, total.C["evaluations"], len(sigs), wall, len(fresh), len(knownHit))
+	for _, h := range hangs {
+		if len(h) > 600 {
+			h = h[:600] + "..."
+		}
+		fmt.Printf("WATCHDOG property=%s a run exceeded %v of wall clock (hang in the code under test or overloaded machine): %s\n", e.ID(), runLimit(), h)
+	}
 	if len(fresh) > 0 {
 		return 1
 	}
